@@ -75,3 +75,18 @@ def index_to_coords(api, g, i):
     c.assume(trunc_fact(z3.ToReal(r2) / z3.ToReal(w)))
     c.assume(trunc_fact(z3.ToReal(iz) / z3.ToReal(wh)))
     return SInt(PYMOD(iz, w)), SInt(PYDIV(r2, w)), SInt(PYDIV(iz, wh))
+
+
+def wrap_facts(api, size, v):
+    """facts about the periodic wrap (size + v) % size for v in [-1, size]: instances of quotient /
+    remainder uniqueness for the three possible quotients"""
+    if api.mode == "conc":
+        return
+    z3, lemmas, zint, PYDIV, PYMOD = _z(api)
+    from vc.core.proxies import divmod_fact
+    sz, vz = zint(size), zint(v)
+    a = sz + vz
+    api.ctx.assume(divmod_fact(a, sz))
+    use(api, "U", sz, sz - 1, z3.IntVal(0), PYMOD(a, sz), PYDIV(a, sz))      # v = -1
+    use(api, "U", sz, vz, z3.IntVal(1), PYMOD(a, sz), PYDIV(a, sz))          # 0 <= v < size
+    use(api, "U", sz, z3.IntVal(0), z3.IntVal(2), PYMOD(a, sz), PYDIV(a, sz))  # v = size
